@@ -92,6 +92,75 @@ def _rules(ck, prog, cfg):
              "compaction folds two deltas of one key by keeping the one with the greater `timestamp.time` instead of "
              "ReplicatedValue::merge: per-field/per-element content of the other delta is lost (two replicas' hash deltas: recovery "
              "before = union of fields, after = one side)", fn.where(ins[0][1]["ln"]) if ins else fn.where(), detail="ReplicatedValue::merge used")
+    # whatever the operator is, an existing entry is only replaced by a newer delta: every path of a fold iteration to the insert
+    # passes the None edge of the lookup or the true edge of a stamp comparison between the incoming and the stored delta
+    from .lib import edge_targets as _et
+    gates = set()
+    for sb in sorted(fn.reachable_blocks()):
+        si = switch_info(fn, sb)
+        if not si:
+            continue
+        if si["kind"] == "discr" and si["ty"].startswith("std::option::Option<") and si["src"].kind == "call" and \
+                is_callee(si["src"].term, r"HashMap::<std::string::String, .*ReplicationDelta>::(get|get_mut)\b"):
+            gates.add(_et(fn, sb, 0))
+        if si["kind"] == "val" and si["src"].kind == "rv" and si["src"].rv["k"] == "bin" and si["src"].rv["op"] in ("Gt", "Lt", "Ge", "Le"):
+            a = src_of_operand(fn, si["src"].rv["a"], through_calls=TRANSPARENT)
+            b_ = src_of_operand(fn, si["src"].rv["b"], through_calls=TRANSPARENT)
+            if "timestamp" in a.fields and "timestamp" in b_.fields:
+                tt, ft = lib2.bool_edges(fn, sb)
+                gates.add(tt)
+        if si["kind"] == "val" and si["src"].kind == "call" and is_callee(si["src"].term, r"LamportClock as std::cmp::PartialOrd>::(gt|lt|ge|le)$"):
+            tt, ft = lib2.bool_edges(fn, sb)
+            gates.add(tt)
+    # `let should_insert = match get(k) { Some(e) => d.stamp > e.stamp, None => true }; if should_insert {..}`: the flag's true edge is a
+    # gate when each of its definitions is a stamp comparison or a `true` set behind the None edge of the lookup
+    def _stamp_cmp(rv):
+        if rv["k"] != "bin" or rv["op"] not in ("Gt", "Lt", "Ge", "Le"):
+            return False
+        a = src_of_operand(fn, rv["a"], through_calls=TRANSPARENT)
+        b_ = src_of_operand(fn, rv["b"], through_calls=TRANSPARENT)
+        return "timestamp" in a.fields and "timestamp" in b_.fields
+    for sb in sorted(fn.reachable_blocks()):
+        si = switch_info(fn, sb)
+        if si and si["kind"] == "val" and si.get("local") is not None:
+            defs = fn.defs().get(si["local"], [])
+            # follow one copy (`_166 = _157`)
+            if len(defs) == 1 and defs[0][2] == "assign" and defs[0][3]["k"] == "use" and "c" not in defs[0][3]["a"]:
+                pl = op_place(defs[0][3]["a"])
+                if pl is not None and "p" not in pl:
+                    defs = fn.defs().get(pl["l"], [])
+            if len(defs) >= 2:
+                good = True
+                for (db, di, kind, payload) in defs:
+                    if kind != "assign":
+                        good = False
+                    elif _stamp_cmp(payload):
+                        pass
+                    elif payload["k"] == "use" and payload["a"].get("c", "").strip() in ("const true", "true") and any(db == g or fn.dominates(g, db) for g in gates):
+                        pass
+                    elif payload["k"] == "use" and payload["a"].get("c", "").strip() in ("const false", "false"):
+                        pass
+                    else:
+                        good = False
+                if good:
+                    tt, ft = lib2.bool_edges(fn, sb)
+                    gates.add(tt)
+    heads = lib2.loop_heads(fn)
+    for k_, (ib, it) in enumerate(sorted(ins, key=lambda x: x[1]["ln"])):
+        mine = [h for h, (none_t, some_t, nb) in heads.items() if ib == some_t or ib in fn.reach([some_t], avoid=[h])]
+        if not mine:
+            continue
+        h = min(mine, key=lambda h: len(fn.reach([heads[h][1]], avoid=[h])))
+        path = lib2.path_avoiding(fn, heads[h][1], lambda x, ib=ib: x == ib, lambda x: x in gates, (), from_succ=False)
+        lines = []
+        for x in path or []:
+            ln = fn.term(x).get("ln")
+            if ln and (not lines or lines[-1] != ln):
+                lines.append(ln)
+        ck.check(path is None and bool(gates), "R13.1", "compact:overwrite-only-if-newer#%d%s" % (k_, _tag(cfg)),
+                 "the fold can replace the delta it holds for a key without having compared stamps (path through lines %s): an older delta "
+                 "can overwrite a newer one, so compaction changes which value recovery returns" % lines[:10], fn.where(it["ln"]),
+                 detail="insert only behind `key absent` or `incoming stamp > stored stamp`")
     # ---------------- R13.2
     tainted, names = _wall_clock_locals(fn)
     n2 = 0
